@@ -94,4 +94,36 @@ var properties = map[string]propSpec{
 		Stub:        []string{"blocking prompter", "caller actors"},
 		Probes:      []string{"probe.error_after_unregister", "probe.echo_prompt", "probe.secret_prompt", "probe.yield.prompting.unregister.acquire"},
 	},
+	"C22": {
+		Engine: "wiresim", Level: "exploration", QuickSec: 25, ThoroughSec: 600,
+		Rule: "one run = a seeded message sequence (empty, tiny, >64 KiB) with seeded flush points written through ProtobufEncoder -> bufio -> compressor (none/deflate) -> bufio -> simulated link -> bufio -> decompressor -> bufio -> ProtobufDecoder, assembled as the remote endpoint does; the link fragments (down to single bytes), delays and short-reads under the seeded scheduler; oracles: decoded sequence equals written sequence, at every quiescent point with an idle link everything written before the last Flush has been decoded, and a declared size above the limit is rejected without allocating it; non-trivial = at least 2 messages; distinct = distinct journal hashes",
+		Assumptions: append([]string{"zstandard is not compiled into non-SSPL builds and is not exercised"}, commonAssumptions...),
+		Real:        []string{"encoding.ProtobufEncoder/Decoder", "compression.Algorithm.Compress/Decompress", "stream.MultiFlusher", "bufio layering as in remote"},
+		Stub:        []string{"simulated link (fragmentation, short reads, delay)", "writer/reader actors"},
+		Probes:      []string{"probe.flushes", "probe.link_fragments", "probe.oversize_rejected"},
+	},
+	"C34": {
+		Engine: "wiresim", Level: "fault_enumeration", QuickSec: 25, ThoroughSec: 600,
+		Rule: "one run = the real client side (agent.ClientHandshake + mutagen.ClientVersionHandshake) and the real server side over a simulated link, followed by a one-byte application exchange; enumerated per run (enum.cases): the untouched exchange, every single-byte corruption and every truncation point of the 15 bytes of each direction, every single-field perturbation (3 magic bytes, major, minor, patch) by a simulated peer on either side, and a reference peer built from the documented constants; fragment sizes, XOR mask and version delta are seeded; non-trivial = at least 10 cases enumerated; distinct = distinct journal hashes",
+		Assumptions: append([]string{"with in-flight corruption of one direction only the sender of the corrupted bytes cannot know; 'both sides fail' is therefore checked as: the receiver of altered bytes fails and no application exchange completes on either side; a real field mismatch is played by a simulated peer"}, commonAssumptions...),
+		Real:        []string{"agent.ClientHandshake/ServerHandshake", "mutagen.ClientVersionHandshake/ServerVersionHandshake"},
+		Stub:        []string{"simulated link with corruption/truncation", "simulated mismatching and reference peers"},
+		Probes:      []string{"enum.cases", "fault.link_corrupt", "fault.link_truncate"},
+	},
+	"C44": {
+		Engine: "wiresim", Level: "exploration", QuickSec: 20, ThoroughSec: 600,
+		Rule: "one run = up to three logging actors on one real Logger (random level, with or without scope) issuing records and relaying byte streams through Logger.Writer in seeded fragments; payloads are built from newlines, carriage returns, escape sequences, forged timestamp/level prefixes and random text; every write that reaches the sink must be exactly one line without CR/ESC, carrying timestamp, level and scope; the number of sink writes must equal the number of records/complete lines at enabled levels per an independent reference; non-trivial = at least 2 sink writes; distinct = distinct journal hashes",
+		Assumptions: append([]string{"the sink cannot park a writer (the logger holds a sync.Mutex around the sink write), so interleaving inside a line is checked as 'every sink write is a whole line'"}, commonAssumptions...),
+		Real:        []string{"logging.Logger (log/logf/Writer/Sublogger)", "stream.LineProcessor", "terminal.NeutralizeControlCharacters", "stream.ConcurrentWriter"},
+		Stub:        []string{"sink monitor", "logging actors", "fragmenting relay"},
+		Probes:      []string{"probe.forged_prefix_line"},
+	},
+	"C47": {
+		Engine: "wiresim", Level: "exploration", QuickSec: 15, ThoroughSec: 300,
+		Rule: "one run = one stream helper (cutoff, line processor, hashed, preemptable, valve, multi-closer) driven by a seeded write sequence over a downstream writer that accepts short counts (with io.ErrShortWrite) or fails every k-th call, with cancellation / Shut at a seeded index; each helper is compared with its documented contract computed independently; non-trivial = at least 2 operations; distinct = distinct (configuration, sequence)",
+		Assumptions: append([]string{"single-threaded: the only simulated environment is the downstream writer and the cancellation point"}, commonAssumptions...),
+		Real:        []string{"stream.NewCutoffWriter", "stream.LineProcessor", "stream.NewHashedWriter", "stream.NewPreemptableWriter", "stream.ValveWriter", "stream.NewMultiCloser"},
+		Stub:        []string{"short-writing / failing downstream writer"},
+		Probes:      []string{"probe.cutoff_reached", "probe.line_limit_hit", "probe.preempted", "probe.valve_discarded", "fault.downstream_error", "fault.downstream_short"},
+	},
 }
